@@ -129,7 +129,7 @@ def run(ck):
     ck.note("crystalStars.zeroclean replaced by its vectorised equivalent; equivalence re-checked bitwise on the small cases")
     zc = {"orig": orig_zeroclean, "fast": _fastclean, "checked": 0}
     rng = ck.rng
-    ncrys = ck.n(10, 70)
+    ncrys = ck.n(10, 130)
     max_states = ck.n(200, 520)
     certs, certmeta, certseen = [], [], set()
     skipped = {"nonpercolating": 0, "construct-failed": 0, "geometry": 0, "too-large": 0}
